@@ -42,11 +42,38 @@ def scan_trusted(text):
     return out
 
 
-def run_template(prop, template_path, repo_root=None, rlimit=30, timeout=600, extra_args=()):
+def pull_helper(fname, meta, repo_root):
+    """R39 (auto-pulled helper): a free function `fname` that the extracted code calls but the template does not know is taken
+    verbatim from the source file of one of the template's items and made TRANSPARENT: `ensures r == <its own body read as a
+    spec expression>`.  Only for simple signatures (no generics, no self, explicit return type); if Verus cannot read the body
+    as a spec expression the run ends undecided (exit 2) as before.  Returns the text to append, or None."""
+    for rel in dict.fromkeys(it["file"] for it in meta["items"]):
+        try:
+            src = read(os.path.join(repo_root, rel))
+            a, b = extract.locate(src, "fn " + fname)
+        except Exception:
+            continue
+        item = src[a:b]
+        item = re.sub(r"^(\s*(///[^\n]*\n|#\[[^\]]*\]\s*\n))*", "", item)
+        m = re.match(r"\s*(?:pub(?:\([^)]*\))?\s+)?fn\s+" + re.escape(fname) + r"\s*\(([^)]*)\)\s*->\s*([^{]+?)\s*\{", item, re.S)
+        if not m or "self" in m.group(1) or "<" in item[:item.index("(")]:
+            continue
+        params, rty = m.group(1), m.group(2).strip()
+        body = item[m.end() - 1:]
+        return (f"\n// R39 auto-pulled helper, verbatim from {rel}; contract = its own body read as a spec expression\n"
+                f"fn {fname}({params}) -> (hr: {rty})\n    ensures hr == ({{ let hs: {rty} = {body}; hs }}),\n{body}\n")
+    return None
+
+
+def run_template(prop, template_path, repo_root=None, rlimit=30, timeout=600, extra_args=(), _helpers=None):
     """-> result dict: ok, undecided(reason) , failures[...], functions[...], meta, cmd, secs, out_path"""
     repo_root = repo_root or REPO
     name = os.path.splitext(os.path.basename(template_path))[0].replace(".verus", "")
     text, meta = extract.compose(read(template_path), repo_root, repo_reader(repo_root))
+    for hname, htext in (_helpers or {}).items():
+        k = text.rindex("} // verus!")
+        text = text[:k] + htext + text[k:]
+        meta["rewrites"].append({"rule": "R39", "item": "fn " + hname, "from": "call of a free function unknown to the template", "to": "function appended verbatim, ensures r == body", "count": 1})
     out_dir = os.path.join(EVIDENCE, "extracted")
     os.makedirs(out_dir, exist_ok=True)
     out_path = os.path.join(out_dir, f"{prop}_{name}.rs")
@@ -118,6 +145,19 @@ def run_template(prop, template_path, repo_root=None, rlimit=30, timeout=600, ex
     res["new_unannotated_closures"] = new_closures
     lines = text.split("\n")
     errors = [d for d in diags if d.get("level") == "error" and not d.get("message", "").startswith("aborting due to")]
+    # R39: unknown free functions called by the extracted code -> pull them from the source file and run again (at most 3 rounds)
+    missing = []
+    for d in errors:
+        mm = re.match(r"cannot find function `(\w+)` in this scope", d.get("message", ""))
+        if mm and mm.group(1) not in (_helpers or {}) and mm.group(1) not in missing:
+            missing.append(mm.group(1))
+    if missing and len(_helpers or {}) < 3:
+        hs = dict(_helpers or {})
+        for fn_ in missing:
+            t = pull_helper(fn_, meta, repo_root)
+            if t: hs[fn_] = t
+        if len(hs) > len(_helpers or {}):
+            return run_template(prop, template_path, repo_root=repo_root, rlimit=rlimit, timeout=timeout, extra_args=extra_args, _helpers=hs)
     for d in errors:
         msg = d.get("message", "")
         prim = next((s for s in d.get("spans", []) if s.get("is_primary")), None)
